@@ -184,6 +184,7 @@ class Lib:
             if name == 'operator bool': return '%s.has' % P.paren(objval())
             if name == 'reset': return '(%s.has = 0)' % P.paren(objval())
         if cat == 'sp':
+            if name == 'get' and 'reference_wrapper' in t.strip_ref().name: return '(*%s)' % P.paren(objval())
             if name == 'get': return objval()
             if name == 'operator bool': return '(%s != 0)' % P.paren(objval())
             if name == 'lock': return objval()
@@ -358,6 +359,8 @@ class Lib:
             return 'g_fs_exists'
         if name == 'count' and len(args) == 3 and self.tr.category(P.ty(args[0])) in ('iter', 'ptr'):
             return 'shim_count_char(%s, %s, %s)' % (P.ex(args[0]), P.ex(args[1]), P.ex(args[2]))
+        if name == 'transform' and len(args) == 4 and self.tr.category(P.ty(args[0])) in ('iter', 'ptr'):
+            return 'shim_transform_char(%s, %s, %s, %s)' % tuple(P.ex(a) for a in args)
         if name in ('move', 'forward'):
             return P.ex(args[0])
         if name in ('make_shared', 'make_unique'):
